@@ -122,7 +122,7 @@ def cls(cfg, addr, cmd):
     return "+".join(parts) or "none"
 
 
-RULESETS = ["1/s", "2/s", "3/m", "2/s,3/m", "-1/s"]
+RULESETS = ["1/s", "2/s", "3/m", "2/s,3/m", "-1/s", "1/s,3/sec", "3/s,1/s"]  # incl. two rules for ONE window, looser last / first
 STEPS = [0, 0.5, 1, 30, 60, 61]
 
 
@@ -180,7 +180,8 @@ class SmallScope(Sub):
 
 @st.composite
 def st_long(draw):
-    rules = st.sampled_from(["1/s", "2/s", "5/s", "3/m", "10/m", "2/s,3/m", "5/s,20/m,100/h", "-1/s"])
+    rules = st.sampled_from(["1/s", "2/s", "5/s", "3/m", "10/m", "2/s,3/m", "5/s,20/m,100/h", "-1/s",
+                             "1/s,3/sec", "2/min,5/minute,100/h", "4/s,2/s", "-1/s,5/min"])
     cfg = {}
     addrs = draw(st.sampled_from([A4, A6, A4 + A6]))
     if draw(st.booleans()):
@@ -252,7 +253,8 @@ class Parser(Sub):
         got = rl.parse_option(case)
         want = parse_ref(case)
         viol = []
-        if sorted(got) != sorted(want):
+        # the rule SET is what matters: a duplicate of an identical rule changes nothing, its order neither
+        if {tuple(x) for x in got} != {tuple(x) for x in want}:
             viol.append(V("parser-mismatch", "rule strings parse to (interval, n) pairs", option=case, got=got, want=want))
         return Result(viol, len(want) >= 2, [])
 
